@@ -5,27 +5,36 @@ export GOPROXY := off
 COQ_TIMEOUT ?= 3000
 JOBS ?= 16
 
-.PHONY: setup coq coqproject harness clean check-clean coqchk
+.PHONY: setup coq coq-only coqproject harness harness-all clean check-clean coqchk
 
-setup: check-clean coq harness
+setup: check-clean coq harness-all
 
 # _CoqProject is regenerated from the files on disk so that adding a .v file
 # needs no edit of a shared file.
 coqproject:
-	@cd coq && { echo "-Q . MV"; echo "-arg -w -arg -notation-overridden,-deprecated-hint-without-locality,-deprecated-instance-without-locality,-ambiguous-paths,-undeclared-scope"; find . -name '*.v' ! -path './build/*' | sed 's|^\./||' | LC_ALL=C sort; } > _CoqProject.new \
-	 && { cmp -s _CoqProject.new _CoqProject || mv _CoqProject.new _CoqProject; rm -f _CoqProject.new; } \
-	 && { [ Makefile.coq -nt _CoqProject ] || coq_makefile -f _CoqProject -o Makefile.coq >/dev/null; }
+	@mkdir -p build
+	@flock build/coqproject.lock bin/coqproject.sh
 
+# all Coq builds are serialised by a lock so that parallel checks (or people)
+# never compile the same file twice at once
 coq: coqproject
-	cd coq && timeout $(COQ_TIMEOUT) $(MAKE) -f Makefile.coq -j$(JOBS) --no-print-directory
+	@mkdir -p build
+	cd coq && flock ../build/coq.lock timeout $(COQ_TIMEOUT) $(MAKE) -f Makefile.coq -j$(JOBS) --no-print-directory
 
 # build selected .vo targets only: make coq-only T="Props/C13.vo Run/C13.vo"
 coq-only: coqproject
-	cd coq && timeout $(COQ_TIMEOUT) $(MAKE) -f Makefile.coq -j$(JOBS) --no-print-directory $(T)
+	@mkdir -p build
+	cd coq && flock ../build/coq.lock timeout $(COQ_TIMEOUT) $(MAKE) -f Makefile.coq -j$(JOBS) --no-print-directory $(T)
 
+# one binary per property (harness/<pid>/), so a broken runner of one property
+# cannot break the build of another: make harness P=c13
 harness:
-	cp /repo/go.sum harness/go.sum
-	cd harness && go build -tags verif -o ../build/harness .
+	@mkdir -p build
+	@cmp -s /repo/go.sum harness/go.sum || cp /repo/go.sum harness/go.sum
+	cd harness && flock ../build/go.lock go build -tags verif -o ../build/harness_$(P) ./$(P)
+
+harness-all:
+	@for d in harness/c[0-9]*; do $(MAKE) --no-print-directory harness P=$$(basename $$d) || exit 1; done
 
 # no escape hatches anywhere in the development
 check-clean:
